@@ -64,7 +64,7 @@ def ops(tier: str) -> List[tuple]:
     return out
 
 
-def render(op, mode: str, feed: List[int], pre: List[str]) -> str:
+def render(op, mode: str, feed: List[int], pre: List[str], recv: str = "bz") -> str:
     name, args, kwargs = op
 
     def val(v):
@@ -82,10 +82,22 @@ def render(op, mode: str, feed: List[int], pre: List[str]) -> str:
         return var
 
     parts = [val(a) for a in args] + [f"{k}={val(v)}" for k, v in kwargs.items()]
-    return f"bz.{name}({', '.join(parts)})"
+    return f"{recv}.{name}({', '.join(parts)})"
 
 
 GETTERS = ["mon.write(bz.get_state())", "mon.write(bz.get_frequency())", "mon.write(bz.get_last_frequency())"]
+PINS = {"bz": 8, "b2": 5}
+DEFAULT_FREQ = {"bz": 440.0, "b2": 880.0}
+
+
+def build_two(seq: Sequence[int], recvs: Sequence[str], all_ops) -> dict:
+    """Two buzzers in one sketch: calls alternate between them."""
+    lines: List[str] = []
+    for k, (idx, recv) in enumerate(zip(seq, recvs)):
+        call = render(all_ops[idx], "lit", [], [], recv)
+        lines += [f'mon.write("call {k}")', call] + [g.replace("bz.", recv + ".") for g in GETTERS]
+    src = common.script(["bz = Buzzer(8)", "b2 = Buzzer(5, default_frequency=880)"] + lines, prologue=PRO)
+    return {"id": f"two:{tuple(recvs)}:{tuple(seq)}", "src": src, "runs": [{"passes": 0}], "ops": [all_ops[i] for i in seq], "recvs": list(recvs), "placement": "setup"}
 
 
 def build(seq: Sequence[int], all_ops, mode: str, placement: str) -> Optional[dict]:
@@ -121,6 +133,11 @@ def generate(tier: str, only=None) -> Iterator[dict]:
     if tier == "thorough":
         seqs += list(itertools.product(range(n), repeat=2))
         seqs += list(itertools.product(core, repeat=3))
+    small = core[:8]
+    for seq in itertools.product(small, repeat=3):
+        yield build_two(seq, ("bz", "b2", "bz"), all_ops)
+    for seq in itertools.product(small, repeat=2):
+        yield build_two(seq, ("b2", "bz"), all_ops)
     seen = set()
     for seq in seqs:
         if seq in seen:
@@ -315,7 +332,8 @@ def check_call(op, events: List[tuple], getters: List[str], st: dict) -> Optiona
 
 def monitor(case, dr) -> Optional[str]:
     ops_list = case["ops"]
-    st = {"sounding_pin": None, "cur": 0.0, "last": 440.0}
+    recvs = case.get("recvs") or ["bz"] * len(ops_list)
+    states = {r: {"sounding_pin": None, "cur": 0.0, "last": DEFAULT_FREQ[r]} for r in PINS}
     # split the trace at 'call k' markers
     calls: List[Tuple[List[tuple], List[str]]] = []
     cur_events: Optional[List[tuple]] = None
@@ -332,14 +350,12 @@ def monitor(case, dr) -> Optional[str]:
             continue
         if cur_events is None or cur_getters:
             continue
-        if ev.kind == "tone" and int(ev.args[0]) == PIN:
-            cur_events.append(("tone", int(ev.args[1])))
-        elif ev.kind == "notone" and int(ev.args[0]) == PIN:
-            cur_events.append(("notone",))
+        if ev.kind == "tone":
+            cur_events.append(("tone", int(ev.args[1]), int(ev.args[0])))
+        elif ev.kind == "notone":
+            cur_events.append(("notone", int(ev.args[0])))
         elif ev.kind == "delay":
             cur_events.append(("delay", int(ev.args[0])))
-        elif ev.kind in ("tone", "notone"):
-            return f"{ev.kind} on pin {ev.args[0]} (the buzzer is on pin {PIN})"
     if cur_events is not None:
         calls.append((cur_events, cur_getters))
     reps = 2 if case["placement"] == "loop" else 1
@@ -347,7 +363,21 @@ def monitor(case, dr) -> Optional[str]:
         return f"{len(calls)} call segments in the trace, expected {len(ops_list) * reps}"
     for k, (events, getters) in enumerate(calls):
         op = ops_list[k % len(ops_list)]
-        err = check_call(op, events, getters, st)
+        recv = recvs[k % len(ops_list)]
+        pin = PINS[recv]
+        mine: List[tuple] = []
+        for e in events:
+            if e[0] == "tone":
+                if e[2] != pin:
+                    return f"call #{k} on {recv} (pin {pin}) produced tone on pin {e[2]}"
+                mine.append(("tone", e[1]))
+            elif e[0] == "notone":
+                if e[1] != pin:
+                    return f"call #{k} on {recv} (pin {pin}) produced noTone on pin {e[1]}"
+                mine.append(("notone",))
+            else:
+                mine.append(e)
+        err = check_call(op, mine, getters, states[recv])
         if err:
             return f"call #{k} {op[0]}: {err}"
     return None
